@@ -25,5 +25,5 @@ PLAN = dict(
          "from its original by a call of the same function with a different dimension or parameter. Distinct = distinct descriptor.",
     assumptions=["parameters stay inside each function's documented domain (log2bound<=50 for from_znx64, |x/d| small for conversions)"],
     quick=_jobs("quick"), thorough=_jobs("thorough"),
-    required_classes=dict(all=["fn:" + f for f in FNS] + ["repeat_after_other_params"]),
+    required_classes=dict(all=["fn:" + f for f in FNS] + ["repeat_after_other_params", "simple:m=1 and m=65536 in one history", "simple:m>=4096", "subnormal-range operands"]),
 )
